@@ -343,6 +343,9 @@ class SymClient(Client):
                         return r0
                 except (NotConst, SyntaxError):
                     pass
+                d0 = self._dispatch_targets(t)
+                if d0 is not None:
+                    return d0
         if isinstance(fn, ast.Name):
             # a function defined inside the analysed one (or inside an enclosing one)
             f0 = self.f
@@ -361,6 +364,32 @@ class SymClient(Client):
         except NotConst:
             return None
         return r
+
+    def _dispatch_targets(self, term: str):
+        """``self.TABLE[k]`` where TABLE is a class-level dict whose values are functions of the class body:
+        ('dispatch', key term, [(constant key, FuncInfo), ...])"""
+        try:
+            e = ast.parse(term, mode='eval').body
+        except SyntaxError:
+            return None
+        if not (isinstance(e, ast.Subscript) and self.cls is not None):
+            return None
+        ch = attr_chain(e.value)
+        if not (ch and len(ch) == 2 and ch[0] in ('self', 'cls', self.cls.name)):
+            return None
+        hit = self.cls.find_attr(ch[1])
+        if hit is None or not isinstance(hit[1], ast.Dict):
+            return None
+        out = []
+        for k, v in zip(hit[1].keys, hit[1].values):
+            if k is None or not isinstance(v, ast.Name):
+                return None
+            m = hit[0].find_method(v.id)
+            kk = self.repo.try_fold(k, hit[0].module, hit[0])
+            if m is None or kk is None:
+                return None
+            out.append((kk, m))
+        return ('dispatch', ast.unparse(e.slice), out)
 
     def _call(self, call: ast.Call, s: SymState) -> List[SymState]:
         """Record events / allocate objects / inline callees for one call."""
@@ -408,6 +437,18 @@ class SymClient(Client):
                 kwargs = tuple(kwargs) + (('=', ft),)     # the token this call's result is known by
             s = self.emit(s, Event(kind, callee_txt, args, kwargs, tuple(snap), self.site_line or call.lineno, s.conds, self.f.key))
         r = self._resolve_callee(call.func, s)
+        if isinstance(r, tuple) and r and r[0] == 'dispatch' and self.depth < 6:
+            # a call through a table of handlers: each entry is a possible callee, under the condition that selects it
+            outs: List[SymState] = []
+            seen_fi = {}
+            for kk, fi in r[2]:
+                seen_fi.setdefault(fi.key, (fi, []))[1].append(kk)
+            for fi, keys in seen_fi.values():
+                if _is_generator(fi.node):
+                    continue
+                s_k = s.add_cond('+%s in %r' % (r[1], tuple(keys))) if len(keys) > 1 else s.add_cond('+%s == %r' % (r[1], keys[0]))
+                outs.extend(self._inline(fi, call, s_k))
+            return outs or [s]
         if isinstance(r, ClassRef):
             return [self._alloc(call, self.new_token(r.name, call), s)]
         if isinstance(r, FuncRef):
@@ -493,7 +534,14 @@ class SymClient(Client):
                     elif val is None:
                         args = ()
                     else:
-                        args = (self.value_term(val, st),)
+                        t0 = self.value_term(val, st)
+                        args = (t0,)
+                        try:
+                            te0 = ast.parse(t0, mode='eval').body
+                        except SyntaxError:
+                            te0 = None
+                        if isinstance(te0, ast.Tuple) and not any(isinstance(x, ast.Starred) for x in te0.elts):
+                            args = tuple(ast.unparse(x) for x in te0.elts)    # ``pair = (a, b); yield pair``
                     snap = tuple((a, st.fields_of(a)) for a in args if is_token(a))
                     st = self.emit(st, Event('yield', 'yield', args, (), snap, self.site_line or y.lineno, st.conds, self.f.key))
                 nxt.append(st)
@@ -509,6 +557,8 @@ class SymClient(Client):
             ft = self.fresh_token(e, s)
             if ft is not None:
                 return ft
+            if s.ret is not None and isinstance(r, tuple) and r and r[0] == 'dispatch':
+                return s.ret
             if s.ret is not None and isinstance(r, FuncRef):
                 fi = self.repo.func(r.module, r.qualname)
                 if self.inline(fi) and not _is_generator(fi.node):
@@ -694,6 +744,13 @@ class SymClient(Client):
             if v in ('False', 'None'):
                 outs_f.append(s1)
                 continue
+            dec = _decide_none_test(test, self, s1)
+            if dec is True:
+                outs_t.append(s1)
+                continue
+            if dec is False:
+                outs_f.append(s1)
+                continue
             txt = v if inlined else self.term(test, s1)
             outs_t.append(s1.add_cond('+' + txt))
             outs_f.append(s1.add_cond('-' + txt))
@@ -775,6 +832,49 @@ class SymClient(Client):
 
     def nested_def(self, st, s):
         return [s]
+
+
+def _never_none(term: str) -> bool:
+    """a term whose value cannot be None: a literal, a container display, a slice, arithmetic, an object token"""
+    if is_token(term) or _TOKEN2_RE.match(term):
+        return True
+    try:
+        e = ast.parse(term, mode='eval').body
+    except SyntaxError:
+        return False
+    if isinstance(e, ast.Constant):
+        return e.value is not None
+    if isinstance(e, (ast.Tuple, ast.List, ast.Dict, ast.Set, ast.BinOp, ast.JoinedStr, ast.Compare, ast.ListComp, ast.DictComp)):
+        return True
+    if isinstance(e, ast.Subscript) and isinstance(e.slice, ast.Slice):
+        return True
+    return False
+
+
+_TOKEN2_RE = __import__('re').compile(r'^[A-Z]+_L\d+_\d+$')
+
+
+def _decide_none_test(test: ast.expr, client: 'SymClient', s: SymState) -> Optional[bool]:
+    """``x is None`` / ``x is not None`` / ``x == None`` where the term of x is the constant None or cannot be None
+    (the value an inlined helper returned on this path): the branch is decided, the other one is infeasible."""
+    if not (isinstance(test, ast.Compare) and len(test.ops) == 1 and isinstance(test.ops[0], (ast.Is, ast.IsNot, ast.Eq, ast.NotEq))):
+        return None
+    l, r = test.left, test.comparators[0]
+    if isinstance(r, ast.Constant) and r.value is None:
+        other = l
+    elif isinstance(l, ast.Constant) and l.value is None:
+        other = r
+    else:
+        return None
+    if not isinstance(other, ast.Name) or s.get(other.id) is None:
+        return None     # only locals carry path-specific values
+    t = s.get(other.id)
+    positive = isinstance(test.ops[0], (ast.Is, ast.Eq))
+    if t == 'None':
+        return positive
+    if _never_none(t):
+        return not positive
+    return None
 
 
 def _yields_in(e: ast.AST) -> List[ast.Yield]:
